@@ -15,7 +15,7 @@ CHECKS = {
  "C01": dict(level="exploration", sec="4 C01", tech="runtime monitoring: ground-truth occupancy monitor over random task-level histories, thread-level chaos/one-preemption sweep, Miri",
    text="Random hostile histories (faults, cancellation at every suspension point, take/retain) of the real pool under a director that controls every await point; an occupancy monitor built from constructor/destructor/manager-call ground truth asserts the limit at every create call, admission and hand-out. Held on the executions observed, not a proof.",
    note="Trusts tokio's semaphore below hook granularity except where Miri/TSan runs reach it; resize/close are excluded by the property's own precondition."),
- "C02": dict(level="exploration", sec="4 C02", tech="runtime monitoring: quiescence oracle + public-API capacity probe over random fault histories (managed pool; the get() family of the unmanaged pool as well), thread-level sweep, chaos and full-speed race rounds",
+ "C02": dict(level="exploration", sec="4 C02", tech="runtime monitoring: quiescence oracle + public-API capacity probe over random fault histories (managed pool; the get() family of the unmanaged pool as well), thread-level sweep (incl. a waiter that must be served while take() sits in Manager::detach), chaos and full-speed race rounds; hang watchdog (a repeated hang is a violation)",
    text="At every scheduler quiescent point each blocked getter must be justified by exhausted ground-truth capacity; every history ends with a capacity probe through the public API; non-injected panics are violations.",
    note="Unbounded liveness restated as bounded progress at quiescence."),
  "C03": dict(level="fault_enumeration", sec="4 C03", tech="runtime monitoring: abandonment matrix (suspension point x abandonment kind x pool state) with differential status/ground-truth oracle; random histories incl. calls given up before their first poll; full-speed race rounds with abandoned blocking gets",
@@ -24,7 +24,7 @@ CHECKS = {
  "C04": dict(level="fault_enumeration", sec="4 C04", tech="runtime monitoring: per-object protocol automaton over the manager/hook call log; exhaustive outcome-vector enumeration for one get",
    text="A protocol automaton per object checks order and completeness of the verification chain at every callback and hand-out; every error returned is matched against the unique number of the failing call; the outcome tree of one get over small pools is enumerated completely.",
    note="Errors carry unique numbers; hooks are the harness's own."),
- "C05": dict(level="exploration", sec="4 C05", tech="runtime monitoring: identity-tagged objects with a location map (task level), thread-level one-preemption sweep and chaos with conservation/capacity probe at rest, full-speed race rounds incl. race-proof regimes (never empty / never full / contended timed gets)",
+ "C05": dict(level="exploration", sec="4 C05", tech="runtime monitoring: identity-tagged objects with a location map (task level), thread-level one-preemption sweep and chaos with conservation/capacity probe at rest, full-speed race rounds incl. race-proof regimes (never empty / never full / contended timed gets); pools of up to 70 000 slots; hang watchdog",
    text="Every object carries an id and a logged destructor; a location map (in pool / held / handed back) is updated only from observed call results, so loss, duplication, a wrong try_add/add verdict, stranded callers and wrong status() figures at rest are visible. Real threads are parked at every schedule point of the unmanaged pool while one racing operation runs.",
    note="Exactness clauses (try_add reports Timeout exactly while full) are only judged where the order of events is total (task level)."),
  "C06": dict(level="exploration", sec="4 C06", tech="runtime monitoring: close() inserted at random points of task-level histories + thread-level close sweep; destructor/detach log and call results",
@@ -33,7 +33,7 @@ CHECKS = {
  "C07": dict(level="exploration", sec="4 C07", tech="runtime monitoring: admission monitor against the resize log in totally ordered task-level histories; capacity probe",
    text="In task-level histories the order of resize calls, admissions and returns is total, so every admission is checked against the limit in force; surplus handling, growth with waiters and the final capacity are checked by probe.",
    note="Thread-level runs only check order-insensitive end states."),
- "C08": dict(level="exploration", sec="4 C08", tech="runtime monitoring: reference deque from the return log compared with the object every get() tries first (also through handles from Object::pool()); callback attribution marker; lock-contention race rounds with conservation oracles",
+ "C08": dict(level="exploration", sec="4 C08", tech="runtime monitoring: reference deque from the return log compared with the object every get() tries first (also through handles from Object::pool()); callback attribution marker; lock-contention race rounds with conservation oracles; race-proof steady-state regime (N objects, <= N callers, resizes >= N, retain(keep all)): fixed LIFO / FIFO hand-out order, no creation, exact retain report; pools of up to 70 000 slots",
    text="A reference queue maintained from observed returns/retains/releases predicts the object each get must try first; create is only legal with an empty reference queue; every callback must be attributable to a pool call in progress.",
    note="Order is only observable at task level."),
  "C09": dict(level="exploration", sec="4 C09", tech="runtime monitoring: self-recording predicates, detach/destructor ledger per object id; thread-level sweep incl. detach inside retain() as a gate; race rounds with takes",
@@ -45,7 +45,7 @@ CHECKS = {
  "C11": dict(level="exploration", sec="4 C11", tech="runtime monitoring: status() sampled after every director action against ground truth (exact at quiescence, range checks otherwise), managed and unmanaged pool",
    text="status() is sampled after every action: exact equality with ground truth at quiescent points, plausibility bounds in between.",
    note="Thread-level sampling uses monotone bounds only."),
- "C12": dict(level="exploration", sec="4 C12", tech="runtime monitoring: panic capture + thread-level one-preemption sweep of close() against every unmanaged operation at every schedule point; task-level histories continuing after close",
+ "C12": dict(level="exploration", sec="4 C12", tech="runtime monitoring: panic capture + thread-level one-preemption sweep of close() against every unmanaged operation at every schedule point; task-level histories continuing after close; full-speed race rounds (waiting figure of the closed pool at rest); hang watchdog (a repeated hang is a violation)",
    text="Thread A is parked at each schedule point of each unmanaged operation while close() (and every other operation) runs to completion on another thread, and vice versa; panics, results after close, objects kept by the closed pool and status at rest are checked; task-level histories continue after close().",
    note="Whether an add racing close returns Ok or hands the object back is left open by the property; only 'the closed pool keeps nothing' is demanded."),
  "C13": dict(level="exploration", sec="4 C13", tech="runtime monitoring: per-object hand-out counter compared with Metrics at every callback, hand-out and retain",
@@ -66,7 +66,7 @@ CHECKS = {
  "C17": dict(level="exploration", sec="4 C17", engine="redis", tech="runtime monitoring: scripted RESP server (unix domain socket) with per-connection command log and WATCH flag; scripted answers to the recycle PING (stale / look-alike / well-known / malformed replies, every error code); identity probe at hand-out; full-speed recycles on a multi-thread runtime with pairwise-distinct PING values",
    text="The real redis-rs multiplexed client talks to a scripted RESP server. At every hand-out of a reused connection the server's log for that connection must show exactly UNWATCH then PING <v> since the return, v must be new for the pool, the echo must have been correct and no WATCH state may be left; a connection whose PING got a stale / wrong value, an error, a disconnect or silence must never be handed out again; Connection::take is checked through status() and the server log.",
    note="Loopback TCP only; cluster and sentinel pools are not covered by this property."),
- "C19": dict(level="exploration", sec="4 C19", engine="redis", tech="runtime monitoring: generated configs against rule oracle and redis crate parser; field-wise conversion checks; serde_json and config::Environment round trips; scripted RESP listeners observe which servers are contacted and with which AUTH/HELLO/SELECT",
+ "C19": dict(level="exploration", sec="4 C19", engine="redis", tech="runtime monitoring: generated configs against rule oracle and redis crate parser; field-wise conversion checks; serde_json and config::Environment round trips; scripted RESP listeners observe which servers are contacted (default local server for the standalone, cluster and sentinel flavours) and with which AUTH/HELLO/SELECT",
    text="Generated Config values of the three flavours (both/neither/one of url and connection, malformed URLs) are checked for the documented error or success without panics; generated connection descriptions are converted to the redis crate's types and back field by field; generated PoolConfig values with durations over the full range are round-tripped through a typed and a string-typed source; which servers a built pool really contacts, and the credentials / protocol / database it uses there, is observed on scripted listeners (standalone, cluster with CLUSTER SLOTS, sentinel with SENTINEL MASTERS).",
    note="The 'default local server' case needs port 6379 to be free; otherwise that cell is reported inconclusive. TLS addresses are not connected to."),
 }
